@@ -97,6 +97,38 @@ def run(ctx, report):
                      {"shortest_unparseable_print": w} if w is not None else
                      {"printed": "digits+ ('.' digit{1,2})? unit"}, "4")
 
+    # print -> parse, folded: Size.from_string(str(Size(v, u))) is the size with v rounded to two decimals and the SAME unit, for
+    # every unit x sample value (zero included), and so is from_string on zero spelled with each unit
+    from ..core.constfold import Folder as _Folder, FoldRaise as _FoldRaise
+    F2 = _Folder(idx)
+    F2.object_classes = "*"
+    bad_rt = []
+    n_rt = 0
+
+    def _ev(text, **local):
+        return F2.eval_in("pycaption.geometry", ast.parse(text, mode="eval").body, local)
+    spelled = [(f"{z}{u.value}", 0.0, u) for u in units.members for z in ("0", "0.0", "00")]
+    for u in units.members:
+        for v in samples:
+            if v >= 0:
+                spelled.append((None, v, u))
+    for text, v, u in spelled:
+        n_rt += 1
+        try:
+            if text is None:
+                text = _ev(f"str(Size(v, UnitEnum.{u.name}))", v=v)
+            back = _ev("Size.from_string(t)", t=text)
+        except _FoldRaise as e:
+            bad_rt.append({"printed": text, "raises": e.exc_name})
+            continue
+        except AnalysisError as e:
+            raise AnalysisError(f"Size print -> parse cannot be folded on {text!r}: {e}")
+        bv, bu = (back.attrs.get("value"), back.attrs.get("unit")) if isinstance(back, Stub) else (None, None)
+        if getattr(bu, "name", None) != u.name or bv is None or abs(float(bv) - round(v, 2)) > 1e-9:
+            bad_rt.append({"printed": text, "parsed_back": f"{bv} {getattr(bu, 'name', bu)}", "required": f"{round(v, 2)} {u.name}"})
+    report.check(not bad_rt, "R-ROUNDTRIP", fn, "a printed size parses back to the same value (two decimals) and the same unit, zero "
+                 "included", {"evaluations": n_rt, "mismatches": bad_rt[:4]}, "4")
+
     # clause 5 ------------------------------------------------------------
     pfn = idx.get_function(GEOM, "Padding.from_xml_attribute")
     report.covered(pfn)
